@@ -19,15 +19,15 @@ from .seams import SeamBypassed, boot, repo_root
 PROPS = {
     # id: (module, level, quick runs, thorough runs, design ref)
     "C08": ("w1_resolve", "exploration", 3000, 400000, "4/C08"),
-    "C09": ("w1_resolve", "exploration", 3000, 400000, "4/C09"),
+    "C09": ("w1_resolve", "exploration", 4000, 400000, "4/C09"),
     "C34": ("w1_resolve", "exploration", 3000, 400000, "4/C34"),
-    "C13": ("w2_lifecycle", "exploration", 3000, 300000, "4/C13"),
+    "C13": ("w2_lifecycle", "exploration", 4000, 300000, "4/C13"),
     "C14": ("w2_lifecycle", "exploration", 3000, 300000, "4/C14"),
     "C15": ("w2_lifecycle", "fault_enumeration", 2500, 12000, "4/C15"),
     "C33": ("w2_lifecycle", "fault_enumeration", 2500, 15000, "4/C33"),
-    "C16": ("w3_history", "exploration", 1000, 40000, "4/C16"),
+    "C16": ("w3_history", "exploration", 1500, 40000, "4/C16"),
     "C17": ("w4_repo", "exploration", 2000, 200000, "4/C17"),
-    "C18": ("w4_repo", "fault_enumeration", 2000, 15000, "4/C18"),
+    "C18": ("w4_repo", "fault_enumeration", 3000, 15000, "4/C18"),
     "C27": ("w4_repo", "exploration", 2000, 200000, "4/C27"),
     "C28": ("w4_repo", "fault_enumeration", 2000, 15000, "4/C28"),
     "C26": ("w5_registry", "exploration", 5000, 1000000, "4/C26"),
